@@ -3,10 +3,10 @@ CONSTANTS
   Sess = {"s1"}
   Reqs = {"r1","r2"}
   Gets = {"g1"}
-  Cfgs <- CfgRouting
+  Cfgs <- CfgPlainSse
   MaxEmit = 1
   MaxSreq = 1
-  MaxSa = 1
+  MaxSa = 0
   Gates = FALSE
 VIEW MCView
 INVARIANTS ResumeExact IdsDense IdStable StoreBeforeDeliver CompleteAtEnd CompleteAtRest FinalObtainable RefusedOnlyOnConflict ResponseOnOwnExchange NestedRouting NoCrossSession RoutingEntryLifecycle LockDiscipline
